@@ -1,15 +1,356 @@
 package bexpr
 
-import "strconv"
+// C02 — equality compares in the selected value's own type; bad literals are errors.
+// Oracle: the literal read as the value's kind with the documented strconv
+// arguments pinned (base 0, 64 bit; float bit size of the field).
 
-// H_C02_coerce_int64: CoerceInt64 agrees with the pinned strconv reading for every literal of <= 3 bytes.
-func H_C02_coerce_int64() {
-	lit := vString(3)
-	got, gerr := CoerceInt64(lit)
-	want, werr := strconv.ParseInt(lit, 0, 64)
-	vAssert((gerr != nil) == (werr != nil), "error iff literal invalid for int64")
-	if gerr == nil {
-		vAssert(got.(int64) == want, "same value")
+import (
+	"encoding/json"
+	"strconv"
+)
+
+func litBound() int {
+	if vTier() > 0 {
+		return 4
 	}
+	return 3
+}
+
+// H_C02_coerce: the exported Coerce* functions against pinned strconv readings.
+func H_C02_coerce() {
+	lit := vString(litBound())
+	switch vChoose(3) {
+	case 0:
+		got, gerr := CoerceInt64(lit)
+		want, werr := strconv.ParseInt(lit, 0, 64)
+		vAssert((gerr != nil) == (werr != nil), "CoerceInt64 error iff literal invalid")
+		vAssert(gerr != nil || got.(int64) == want, "CoerceInt64 value")
+		vCover("int64")
+	case 1:
+		got, gerr := CoerceUint64(lit)
+		want, werr := strconv.ParseUint(lit, 0, 64)
+		vAssert((gerr != nil) == (werr != nil), "CoerceUint64 error iff literal invalid")
+		vAssert(gerr != nil || got.(uint64) == want, "CoerceUint64 value")
+		vCover("uint64")
+	case 2:
+		got, gerr := CoerceBool(lit)
+		want, werr := strconv.ParseBool(lit)
+		vAssert((gerr != nil) == (werr != nil), "CoerceBool error iff literal invalid")
+		vAssert(gerr != nil || got.(bool) == want, "CoerceBool value")
+		vCover("bool")
+	}
+}
+
+// intDatum builds {"k": x} for each signed kind / wrapper; returns x widened.
+func intDatum(c int) (interface{}, int64, string) {
+	switch c {
+	case 0:
+		x := vInt()
+		return x, int64(x), "int"
+	case 1:
+		x := vInt8()
+		return x, int64(x), "int8"
+	case 2:
+		x := vInt16()
+		return x, int64(x), "int16"
+	case 3:
+		x := vInt32()
+		return x, int64(x), "int32"
+	case 4:
+		x := vInt64()
+		return x, x, "int64"
+	case 5:
+		x := vInt64()
+		return nInt(x), x, "named int64"
+	case 6:
+		x := vInt64()
+		return &x, x, "*int64"
+	default:
+		x := vInt16()
+		var i interface{} = x // interface inside interface: still one dynamic value
+		return i, int64(x), "interface{int16}"
+	}
+}
+
+func uintDatum(c int) (interface{}, uint64, string) {
+	switch c {
+	case 0:
+		x := vUint()
+		return x, uint64(x), "uint"
+	case 1:
+		x := vUint8()
+		return x, uint64(x), "uint8"
+	case 2:
+		x := vUint16()
+		return x, uint64(x), "uint16"
+	case 3:
+		x := vUint32()
+		return x, uint64(x), "uint32"
+	case 4:
+		x := vUint64()
+		return x, x, "uint64"
+	case 5:
+		x := vUint8()
+		return nUint8(x), uint64(x), "named uint8"
+	default:
+		x := vUint64()
+		return &x, x, "*uint64"
+	}
+}
+
+type sC02 struct {
+	K int64 `bexpr:"k"`
+	U uint16
+	B bool
+	S string
+}
+
+// H_C02_int_symlit: every signed kind/wrapper, field value over its full
+// domain, every literal up to the byte bound.
+func H_C02_int_symlit() {
+	v, x, name := intDatum(vChoose(8))
+	lit := vString(litBound())
+	ev := mustCreate("k == 0")
+	setLit(ev, lit)
+	got, gerr := ev.Evaluate(map[string]interface{}{"k": v})
+	want, werr := strconv.ParseInt(lit, 0, 64)
+	vAssert((gerr != nil) == (werr != nil), name+": error iff literal invalid for int64")
+	vAssert(gerr != nil || got == (want == x), name+": true iff same integer")
+	vCover("reached")
+}
+
+func H_C02_uint_symlit() {
+	v, x, name := uintDatum(vChoose(7))
+	lit := vString(litBound())
+	ev := mustCreate("k == 0")
+	setLit(ev, lit)
+	got, gerr := ev.Evaluate(map[string]interface{}{"k": v})
+	want, werr := strconv.ParseUint(lit, 0, 64)
+	vAssert((gerr != nil) == (werr != nil), name+": error iff literal invalid for uint64")
+	vAssert(gerr != nil || got == (want == x), name+": true iff same integer")
+	vCover("reached")
+}
+
+// Boundary spellings read natively; the field value stays fully symbolic.
+var intCorpus = []string{
+	"9223372036854775807", "9223372036854775808", "-9223372036854775808", "-9223372036854775809",
+	"9007199254740993", "9007199254740992", "-9007199254740993", "18446744073709551615", "18446744073709551616",
+	"0x7fffffffffffffff", "0x8000000000000000", "0xffffffffffffffff", "-0x8000000000000000", "0X1F", "0b101", "0B11", "0o17", "0O7", "017", "08",
+	"1_000", "0x_ff", "1__0", "_1", "1_", "+5", "-0", "+-1", "", " 1", "1 ", "1e3", "1.0", "0x", "1.5", "4294967296", "255", "256", "-129", "128",
+	"٣", "１", "true", "abc",
+}
+
+func H_C02_int_corpus() {
+	v, x, name := intDatum(vChoose(8))
+	lit := intCorpus[vChoose(len(intCorpus))]
+	ev := mustCreate("k == 0")
+	setLit(ev, lit)
+	got, gerr := ev.Evaluate(map[string]interface{}{"k": v})
+	want, werr := strconv.ParseInt(lit, 0, 64)
+	vAssert((gerr != nil) == (werr != nil), name+" "+lit+": error iff literal invalid for int64")
+	vAssert(gerr != nil || got == (want == x), name+" "+lit+": true iff same integer")
+	vCover("reached")
+}
+
+func H_C02_uint_corpus() {
+	v, x, name := uintDatum(vChoose(7))
+	lit := intCorpus[vChoose(len(intCorpus))]
+	ev := mustCreate("k == 0")
+	setLit(ev, lit)
+	got, gerr := ev.Evaluate(map[string]interface{}{"k": v})
+	want, werr := strconv.ParseUint(lit, 0, 64)
+	vAssert((gerr != nil) == (werr != nil), name+" "+lit+": error iff literal invalid for uint64")
+	vAssert(gerr != nil || got == (want == x), name+" "+lit+": true iff same integer")
+	vCover("reached")
+}
+
+// Boundary windows: a concrete digit prefix next to 2^63 / 2^64 / 2^53 followed
+// by two symbolic digits, so the solver picks the spelling on either side of
+// the overflow edge (a fully symbolic 19-digit run makes z3 time out on the
+// 64-bit multiplication chain; measured, see DESIGN.md).
+var digitPrefixes = []string{"92233720368547758", "-92233720368547758", "184467440737095516", "90071992547409", "0x7ffffffffffffff", "0xfffffffffffffff", "-0x80000000000000", "42949672"}
+
+func H_C02_int_digits() {
+	pre := digitPrefixes[vChoose(len(digitPrefixes))]
+	ds := vStringN(2)
+	vAssume(ds[0] >= '0' && ds[0] <= '9' && ds[1] >= '0' && ds[1] <= '9')
+	lit := pre + ds
+	ev := mustCreate("k == 0")
+	setLit(ev, lit)
+	if vBool() {
+		x := vInt64()
+		got, gerr := ev.Evaluate(map[string]interface{}{"k": x})
+		want, werr := strconv.ParseInt(lit, 0, 64)
+		vAssert((gerr != nil) == (werr != nil), pre+"dd int64: error iff literal invalid")
+		vAssert(gerr != nil || got == (want == x), pre+"dd int64: true iff same integer")
+		if werr == nil {
+			vCover("int64-in-range")
+		} else {
+			vCover("int64-out-of-range")
+		}
+	} else {
+		x := vUint64()
+		got, gerr := ev.Evaluate(map[string]interface{}{"k": x})
+		want, werr := strconv.ParseUint(lit, 0, 64)
+		vAssert((gerr != nil) == (werr != nil), pre+"dd uint64: error iff literal invalid")
+		vAssert(gerr != nil || got == (want == x), pre+"dd uint64: true iff same integer")
+		if werr == nil {
+			vCover("uint64-in-range")
+		} else {
+			vCover("uint64-out-of-range")
+		}
+	}
+}
+
+func H_C02_bool() {
+	x := vBool()
+	var v interface{} = x
+	switch vChoose(3) {
+	case 1:
+		v = nBool(x)
+	case 2:
+		v = &x
+	}
+	lit := vString(litBound() + 2)
+	ev := mustCreate("k == 0")
+	setLit(ev, lit)
+	got, gerr := ev.Evaluate(map[string]interface{}{"k": v})
+	want, werr := strconv.ParseBool(lit)
+	vAssert((gerr != nil) == (werr != nil), "bool: error iff literal invalid")
+	vAssert(gerr != nil || got == (want == x), "bool: true iff same value")
+	if werr == nil {
+		vCover("valid-bool-literal")
+	}
+	vCover("reached")
+}
+
+func H_C02_string() {
+	x := vString(2)
+	lit := vString(2)
+	var v interface{} = x
+	switch vChoose(3) {
+	case 1:
+		v = nStr(x)
+	case 2:
+		v = &x
+	}
+	ev := mustCreate("k == 0")
+	setLit(ev, lit)
+	got, gerr := ev.Evaluate(map[string]interface{}{"k": v})
+	vAssert(gerr == nil, "string: never an error")
+	vAssert(got == (lit == x), "string: true iff byte-equal")
+	vCover("reached")
+}
+
+var floatCorpus = []string{
+	"0", "-0", "0.0", "1", "1.5", "-1.5", "16777217", "16777216", "9007199254740993", "1e400", "-1e400", "1e-400", "4.9e-324", "1.4e-45",
+	"3.4028235e38", "3.4028236e38", "3.5e38", "0.1", "0.30000000000000004", "1.0000000596046448", "1.00000005960464477539062500001",
+	"0x1p-2", "0x1.fffffep127", "Inf", "-Inf", "+Inf", "infinity", "NaN", "nan", "1_0.5", "1e", "", " 1", "1,5", "abc", "0x", "1e5", ".5", "5.",
+}
+
+func H_C02_float64() {
+	x := vFloat64()
+	vAssume(x == x)
+	var v interface{} = x
+	switch vChoose(3) {
+	case 1:
+		v = nF64(x)
+	case 2:
+		v = &x
+	}
+	lit := floatCorpus[vChoose(len(floatCorpus))]
+	ev := mustCreate("k == 0")
+	setLit(ev, lit)
+	got, gerr := ev.Evaluate(map[string]interface{}{"k": v})
+	want, werr := strconv.ParseFloat(lit, 64)
+	vAssert((gerr != nil) == (werr != nil), "float64 "+lit+": error iff literal invalid")
+	if werr == nil && want == want {
+		vAssert(got == (want == x), "float64 "+lit+": true iff same value")
+	}
+	vCover("reached")
+}
+
+func H_C02_float32() {
+	x := vFloat32()
+	vAssume(x == x)
+	var v interface{} = x
+	if vBool() {
+		v = &x
+	}
+	lit := floatCorpus[vChoose(len(floatCorpus))]
+	ev := mustCreate("k == 0")
+	setLit(ev, lit)
+	got, gerr := ev.Evaluate(map[string]interface{}{"k": v})
+	want, werr := strconv.ParseFloat(lit, 32)
+	vAssert((gerr != nil) == (werr != nil), "float32 "+lit+": error iff literal invalid")
+	if werr == nil && want == want {
+		vAssert(got == (float32(want) == x), "float32 "+lit+": true iff same value")
+	}
+	vCover("reached")
+}
+
+// Struct field (renamed by tag) and json.Number.
+func H_C02_struct_field() {
+	x := vInt64()
+	u := vUint16()
+	lit := vString(2)
+	ev := mustCreate("k == 0")
+	setLit(ev, lit)
+	got, gerr := ev.Evaluate(sC02{K: x, U: u})
+	want, werr := strconv.ParseInt(lit, 0, 64)
+	vAssert((gerr != nil) == (werr != nil), "struct int64: error iff literal invalid")
+	vAssert(gerr != nil || got == (want == x), "struct int64: true iff same integer")
+	ev2 := mustCreate("U == 0")
+	setLit(ev2, lit)
+	got2, gerr2 := ev2.Evaluate(&sC02{K: x, U: u})
+	want2, werr2 := strconv.ParseUint(lit, 0, 64)
+	vAssert((gerr2 != nil) == (werr2 != nil), "struct uint16: error iff literal invalid")
+	vAssert(gerr2 != nil || got2 == (want2 == uint64(u)), "struct uint16: true iff same integer")
+	vCover("reached")
+}
+
+func H_C02_json_number_int() {
+	js := vString(3)
+	x, e := strconv.ParseInt(js, 10, 64)
+	vAssume(e == nil)
+	lit := vString(2)
+	ev := mustCreate("k == 0")
+	setLit(ev, lit)
+	got, gerr := ev.Evaluate(map[string]interface{}{"k": json.Number(js)})
+	want, werr := strconv.ParseInt(lit, 0, 64)
+	vAssert((gerr != nil) == (werr != nil), "json.Number int: error iff literal invalid for int64")
+	vAssert(gerr != nil || got == (want == x), "json.Number int: true iff same integer")
+	vCover("reached")
+}
+
+// Equality against non-scalars is an error, never a silent false.
+func H_C02_nonscalar() {
+	var v interface{}
+	name := ""
+	switch vChoose(7) {
+	case 0:
+		v, name = nil, "nil"
+	case 1:
+		v, name = []int{int(vInt8())}, "slice"
+	case 2:
+		v, name = map[string]int{"a": 1}, "map"
+	case 3:
+		v, name = sC02{K: vInt64()}, "struct"
+	case 4:
+		v, name = (*int)(nil), "nil pointer"
+	case 5:
+		v, name = [1]string{vString(1)}, "array"
+	case 6:
+		v, name = &sC02{}, "pointer to struct"
+	}
+	lit := vString(1)
+	neq := vBool()
+	ev := mustCreate("k == 0")
+	if neq {
+		ev = mustCreate("k != 0")
+	}
+	setLit(ev, lit)
+	o, _, _ := evalO(ev, map[string]interface{}{"k": v})
+	vAssert(o == oError, name+": equality against a non-scalar is an error (got "+oName(o)+")")
 	vCover("reached")
 }
